@@ -71,3 +71,40 @@ def triage_tb3(repo, res):
                               "class is in lex_multichar_comments.allowed_pairs")
             else:
                 f.message += f" -- feasible because TB3 fails: {problems}"
+
+
+def token_wsc_rule(repo, res):
+    """WSC: Token.is_WSC is true for comments and white space: it returns True
+    on the is_comment() and is_space() branches; Token.is_comment tests
+    startswith(pair[0]) and endswith(pair[1]) for the grammar's pairs."""
+    fn = repo.method("Token", "is_WSC")
+    src_calls = {n.func.attr for n in ast.walk(fn) if isinstance(n, ast.Call) and isinstance(n.func, ast.Attribute)}
+    for need in ("is_comment", "is_space"):
+        ok = False
+        for n in ast.walk(fn):
+            if isinstance(n, ast.If) and isinstance(n.test, ast.Call) and isinstance(n.test.func, ast.Attribute) \
+                    and n.test.func.attr == need and n.body and isinstance(n.body[0], ast.Return) \
+                    and isinstance(n.body[0].value, ast.Constant) and n.body[0].value.value is True:
+                ok = True
+            if isinstance(n, ast.Return) and n.value is not None and isinstance(n.value, ast.BoolOp) and \
+                    isinstance(n.value.op, ast.Or) and any(isinstance(v, ast.Call) and isinstance(v.func, ast.Attribute)
+                                                            and v.func.attr == need for v in n.value.values):
+                ok = True
+        res.oblige("WSC", f"Token.is_WSC returns True when {need}()", ok=ok)
+        if not ok:
+            res.add(Finding("WSC", "Token.is_WSC", need,
+                            f"Token.is_WSC no longer returns True for tokens that satisfy {need}(): the parser's skip "
+                            "helpers stop discarding them and they are taken for significant tokens",
+                            where=f"pvl/token.py:{fn.lineno}"))
+    fc = repo.method("Token", "is_comment")
+    ok = False
+    for n in ast.walk(fc):
+        if isinstance(n, ast.If):
+            attrs = {c.func.attr for c in ast.walk(n.test) if isinstance(c, ast.Call) and isinstance(c.func, ast.Attribute)}
+            if {"startswith", "endswith"} <= attrs and isinstance(n.test, ast.BoolOp) and isinstance(n.test.op, ast.And):
+                ok = any(isinstance(b, ast.Return) and isinstance(b.value, ast.Constant) and b.value.value is True for b in n.body)
+    res.oblige("WSC", "Token.is_comment: startswith(opener) and endswith(closer) over grammar.comments", ok=ok)
+    if not ok:
+        res.add(Finding("WSC", "Token.is_comment", "pair test",
+                        "Token.is_comment no longer tests startswith(pair[0]) and endswith(pair[1]) for each pair of "
+                        "grammar.comments", where=f"pvl/token.py:{fc.lineno}"))
